@@ -415,6 +415,11 @@ def cases(tier, seed):
                     'initialisation (sampled, not solver-decided)' % mi, concrete_only=True, validate=40, cost=3))
   out.append(case('lmnn_loop', lmnn_loop_case(12), FUNCS,
                   'one main-loop iteration from an arbitrary (L, G, objective, learn_rate), objective values uninterpreted, up to 11 backtracking halvings', cost=10, validate=0))
+  if tier == 'quick':
+    # a mutant that makes one symbolic case explode must not keep the whole quick check (and the violations other cases already found) beyond
+    # 15 min: C10_m2 / C10_m6 took > 25 min in the seed matrix although single cases report them within seconds
+    for c in out:
+      c['hard_timeout_s'] = min(c.get('hard_timeout_s', 1500), 900)
   return out
 
 
